@@ -118,6 +118,20 @@ def lock_facts(reg):
     return single, read_single, recheck, write_single, call_outside_lock(d)
 
 
+def poison_recovered(reg):
+    """`read_state`/`write_state` take the guard out of a poisoned lock (a panic while a guard was alive – e.g. in the
+    Drop of a replaced callable – must not wedge the registry).  unwrap/expect/`?` on the lock result = False."""
+    imp = impl_block(reg, r"impl Registry\s*\{")
+    ok = True
+    for fn, meth in (("read_state", "read"), ("write_state", "write")):
+        b = " ".join(fn_body(imp, fn).split())
+        if ("self.state." + meth + "()") not in b: raise ExtractError(f"{fn}: lock call not found")
+        recovers = "into_inner()" in b
+        dangerous = re.search(r"self\.state\." + meth + r"\(\)\s*\.\s*(unwrap\(\)|expect\()", b) is not None
+        ok = ok and recovers and not dangerous
+    return ok
+
+
 def map_sorted():
     lock = read("Cargo.lock")
     m = re.search(r'\[\[package\]\]\s*name = "serde_json"\s*version = "[^"]+"(.*?)(?=\[\[package\]\]|\Z)', lock, re.S)
@@ -180,7 +194,7 @@ def extract():
     single, read_single, recheck, write_single, call_outside = lock_facts(reg)
     shape = shape_facts(reg)
     return {"bodyFormats": body_formats(), "shape": shape, "errorCodes": error_codes(), "registryErrorCode": variant_table(reg), "singleSection": single,
-            "readDispatchSingleSection": read_single, "lookupThenWriteLock": True, "writeSectionSingle": write_single, "callOutsideLock": call_outside,
+            "readDispatchSingleSection": read_single, "lookupThenWriteLock": True, "writeSectionSingle": write_single, "callOutsideLock": call_outside, "poisonRecovered": poison_recovered(reg),
             "recheckUnderWriteLock": recheck, "mapSorted": map_sorted()}
 
 
@@ -204,6 +218,8 @@ def render(f):
          f"def writeSectionSingle : Bool := {lb(f['writeSectionSingle'])}",
          "/-- no callable is invoked while a lock guard is alive -/",
          f"def callOutsideLock : Bool := {lb(f['callOutsideLock'])}",
+         "/-- read_state / write_state recover the guard from a poisoned lock -/",
+         f"def poisonRecovered : Bool := {lb(f['poisonRecovered'])}",
          "/-- the write-lock region looks the function map up again before mutating -/",
          f"def recheckUnderWriteLock : Bool := {lb(f['recheckUnderWriteLock'])}",
          "/-- serde_json is built without `preserve_order`: `Map` is a `BTreeMap` -/",
